@@ -101,7 +101,31 @@ class IfInvert(ast.NodeTransformer):
         return node
 
 
-MODULE_TRANSFORMS = {'transpose': TtoTranspose, 'sqrtform': SqrtForm, 'ifinvert': IfInvert}
+class Commute(ast.NodeTransformer):
+    """a + b -> b + a, a * b -> b * a for numeric operands (not lists, tuples, strings, shapes)"""
+    def visit_BinOp(self, node):
+        self.generic_visit(node)
+        if not isinstance(node.op, (ast.Add, ast.Mult)):
+            return node
+
+        def seq_like(e):
+            if isinstance(e, (ast.List, ast.Tuple, ast.ListComp, ast.JoinedStr, ast.Dict)):
+                return True
+            if isinstance(e, ast.Constant) and isinstance(e.value, (str, bytes)):
+                return True
+            return any(isinstance(x, ast.Attribute) and x.attr in ('shape', 'columns', 'states')
+                       for x in ast.walk(e)) or \
+                any(isinstance(x, ast.Name) and x.id.isupper() and x.id.endswith('_COLS')
+                    for x in ast.walk(e)) or \
+                any(isinstance(x, ast.Call) and isinstance(x.func, ast.Name) and
+                    x.func.id in ('list', 'tuple', 'str') for x in ast.walk(e))
+        if seq_like(node.left) or seq_like(node.right):
+            return node
+        return ast.BinOp(left=node.right, op=node.op, right=node.left)
+
+
+MODULE_TRANSFORMS = {'transpose': TtoTranspose, 'sqrtform': SqrtForm, 'ifinvert': IfInvert,
+                     'commute': Commute}
 
 
 def transforms():
